@@ -596,16 +596,16 @@ package ast
 // the five assignment forms: right-hand side first, then (for compound forms) the variable's current value, combined by
 // the operator the flag names, then exactly one Assign of that value to this statement's variable
 //@ func (e *Assignment) Execute(dataContext, memory) (err)
-//@   serves C04
+//@   serves C04 C01 C02
 //@   requires $depth == 0 && treeWF()
 //@   modifies @memo, @setlog, $loc, $varRes, $exprRes, $atomRes, @reslog, $asgN, $asgVar, $asgVal, $asgExprSnap, $asgVarSnap
-//@   ensures[C04] assign: err == nil && e.IsAssign ==> $asgN == old($asgN) + 1 && $asgVar == e.Variable && $asgVal == e.Expression.Value
-//@   ensures[C04] plus: err == nil && !e.IsAssign && e.IsPlusAssign ==> $asgN == old($asgN) + 1 && $asgVar == e.Variable && $asgVal == fn_EvaluateAddition_0($asgVarSnap[e.Variable], e.Expression.Value)
-//@   ensures[C04] minus: err == nil && !e.IsAssign && !e.IsPlusAssign && e.IsMinusAssign ==> $asgN == old($asgN) + 1 && $asgVar == e.Variable && $asgVal == fn_EvaluateSubtraction_0($asgVarSnap[e.Variable], e.Expression.Value)
-//@   ensures[C04] mul: err == nil && !e.IsAssign && !e.IsPlusAssign && !e.IsMinusAssign && e.IsMulAssign ==> $asgN == old($asgN) + 1 && $asgVar == e.Variable && $asgVal == fn_EvaluateMultiplication_0($asgVarSnap[e.Variable], e.Expression.Value)
-//@   ensures[C04] div: err == nil && !e.IsAssign && !e.IsPlusAssign && !e.IsMinusAssign && !e.IsMulAssign && e.IsDivAssign ==> $asgN == old($asgN) + 1 && $asgVar == e.Variable && $asgVal == fn_EvaluateDivision_0($asgVarSnap[e.Variable], e.Expression.Value)
-//@   ensures[C04] atmostone: $asgN <= old($asgN) + 1
-//@   ensures[C04] failedearly: err != nil && $asgN == old($asgN) ==> $loc == old($loc)
+//@   ensures[C04,C01,C02] assign: err == nil && e.IsAssign ==> $asgN == old($asgN) + 1 && $asgVar == e.Variable && $asgVal == e.Expression.Value
+//@   ensures[C04,C01,C02] plus: err == nil && !e.IsAssign && e.IsPlusAssign ==> $asgN == old($asgN) + 1 && $asgVar == e.Variable && $asgVal == fn_EvaluateAddition_0($asgVarSnap[e.Variable], e.Expression.Value)
+//@   ensures[C04,C01,C02] minus: err == nil && !e.IsAssign && !e.IsPlusAssign && e.IsMinusAssign ==> $asgN == old($asgN) + 1 && $asgVar == e.Variable && $asgVal == fn_EvaluateSubtraction_0($asgVarSnap[e.Variable], e.Expression.Value)
+//@   ensures[C04,C01,C02] mul: err == nil && !e.IsAssign && !e.IsPlusAssign && !e.IsMinusAssign && e.IsMulAssign ==> $asgN == old($asgN) + 1 && $asgVar == e.Variable && $asgVal == fn_EvaluateMultiplication_0($asgVarSnap[e.Variable], e.Expression.Value)
+//@   ensures[C04,C01,C02] div: err == nil && !e.IsAssign && !e.IsPlusAssign && !e.IsMinusAssign && !e.IsMulAssign && e.IsDivAssign ==> $asgN == old($asgN) + 1 && $asgVar == e.Variable && $asgVal == fn_EvaluateDivision_0($asgVarSnap[e.Variable], e.Expression.Value)
+//@   ensures[C04,C01,C02] atmostone: $asgN <= old($asgN) + 1
+//@   ensures[C04,C01,C02] failedearly: err != nil && $asgN == old($asgN) ==> $loc == old($loc)
 
 // statements of an action list run in textual order; the list stops at the first failing statement
 //@ func (e *ThenExpression) Execute(dataContext, memory) (err)
@@ -1242,7 +1242,7 @@ package ast
 //@ macro func imageOf(t *pkg.CloneTable, id string) Ref { return t.Records[id].CloneInstance }
 //@ extern func ast/unique.NewID() (s)
 //@   nopanic
-//@ modset clonefx = map[string]*pkg.CloneRecord, fresh pkg.CloneRecord.*, alloc, fresh RuleEntry.*, fresh WhenScope.*, fresh ThenScope.*, fresh ThenExpression.*, fresh ThenExpressionList.*, fresh Assignment.*, fresh Expression.*, fresh ExpressionAtom.*, fresh Variable.*, fresh ArrayMapSelector.*, fresh FunctionCall.*, fresh ArgumentList.*, fresh Constant.*
+//@ modset clonefx = $allocated, map[string]*pkg.CloneRecord, fresh pkg.CloneRecord.*, alloc, fresh RuleEntry.*, fresh WhenScope.*, fresh ThenScope.*, fresh ThenExpression.*, fresh ThenExpressionList.*, fresh Assignment.*, fresh Expression.*, fresh ExpressionAtom.*, fresh Variable.*, fresh ArrayMapSelector.*, fresh FunctionCall.*, fresh ArgumentList.*, fresh Constant.*
 // the blueprint is closed under child links
 //@ macro func blueClosed() bool { return (forall x *RuleEntry :: $blue[x] ==> (x.WhenScope != nil ==> $blue[x.WhenScope]) && (x.ThenScope != nil ==> $blue[x.ThenScope]))
 //@   && (forall x *WhenScope :: $blue[x] ==> (x.Expression != nil ==> $blue[x.Expression])) && (forall x *ThenScope :: $blue[x] ==> (x.ThenExpressionList != nil ==> $blue[x.ThenExpressionList]))
@@ -1253,19 +1253,47 @@ package ast
 //@   && (forall x *Variable :: $blue[x] ==> (x.Variable != nil ==> $blue[x.Variable]) && (x.ArrayMapSelector != nil ==> $blue[x.ArrayMapSelector]))
 //@   && (forall x *ArrayMapSelector :: $blue[x] ==> (x.Expression != nil ==> $blue[x.Expression])) && (forall x *FunctionCall :: $blue[x] ==> (x.ArgumentList != nil ==> $blue[x.ArgumentList])) }
 // ASSUMED (extern) for the two list-shaped nodes (loops over child slices): same clause shape
-//@ extern func (e *ArgumentList) Clone(cloneTable) (c)
+// lists hold existing nodes (A-TREE; heap typing): under this the element-wise fidelity below is checked
+//@ macro func argsAlloc(e *ArgumentList) bool { return forall k int :: 0 <= k && k < len(e.Arguments) ==> e.Arguments[k] != nil && allocated(e.Arguments[k]) }
+//@ func (e *ArgumentList) Clone(cloneTable) (c)
+//@   serves C09 C01 C02
+//@   opt freshslices=1
+//@   opt alloc=1
+//@   requires e != nil
+//@   requires TableInv(cloneTable)
 //@   modifies @clonefx
-//@   ensures fresh(c) && !$blue[c] && c.GrlText == e.GrlText && len(c.Arguments) == len(e.Arguments)
-//@   ensures forall k int :: 0 <= k && k < len(e.Arguments) ==> has(cloneTable.Records, e.Arguments[k].AstID) && c.Arguments[k] == imageOf(cloneTable, e.Arguments[k].AstID)
-//@   ensures TableInv(cloneTable) && recordsKept(cloneTable) && (forall p Ref :: old(allocated(p)) ==> allocated(p))
-//@ extern func (e *ThenExpressionList) Clone(cloneTable) (c)
+//@   invariant@1 oldlists: forall a *ArgumentList :: (a == nil || old(allocated(a))) ==> a.Arguments == old(a.Arguments)
+//@   invariant@1 shape: clone != nil && !old(allocated(clone)) && allocated(clone) && len(clone.Arguments) == len(e.Arguments) && e.Arguments == old(e.Arguments) && clone.GrlText == e.GrlText
+//@   invariant@1 done: old(argsAlloc(e)) ==> forall k int :: 0 <= k && k < $i ==> has(cloneTable.Records, e.Arguments[k].AstID) && clone.Arguments[k] == imageOf(cloneTable, e.Arguments[k].AstID)
+//@   invariant@1 table: TableInv(cloneTable) && recordsKept(cloneTable) && (forall p Ref :: old(allocated(p)) ==> allocated(p))
+//@   ensures[C09] fresh: fresh(c) && !$blue[c]
+//@   ensures[C09] faithful: c.GrlText == e.GrlText && len(c.Arguments) == len(e.Arguments)
+//@   ensures[C09,C01,C02] children: old(argsAlloc(e)) ==> forall k int :: 0 <= k && k < len(e.Arguments) ==> has(cloneTable.Records, e.Arguments[k].AstID) && c.Arguments[k] == imageOf(cloneTable, e.Arguments[k].AstID)
+//@   ensures[C09] tableinv: TableInv(cloneTable)
+//@   ensures[C09,C01,C02] recordskept: recordsKept(cloneTable)
+//@   ensures allocmono: forall p Ref :: old(allocated(p)) ==> allocated(p)
+//@ macro func thensAlloc(e *ThenExpressionList) bool { return forall k int :: 0 <= k && k < len(e.ThenExpressions) ==> e.ThenExpressions[k] != nil && allocated(e.ThenExpressions[k]) }
+//@ func (e *ThenExpressionList) Clone(cloneTable) (c)
+//@   serves C09 C01 C02
+//@   opt freshslices=1
+//@   opt alloc=1
+//@   requires e != nil
+//@   requires TableInv(cloneTable)
 //@   modifies @clonefx
-//@   ensures fresh(c) && !$blue[c] && c.GrlText == e.GrlText && len(c.ThenExpressions) == len(e.ThenExpressions)
-//@   ensures forall k int :: 0 <= k && k < len(e.ThenExpressions) ==> has(cloneTable.Records, e.ThenExpressions[k].AstID) && c.ThenExpressions[k] == imageOf(cloneTable, e.ThenExpressions[k].AstID)
-//@   ensures TableInv(cloneTable) && recordsKept(cloneTable) && (forall p Ref :: old(allocated(p)) ==> allocated(p))
+//@   invariant@1 oldlists: forall a *ThenExpressionList :: (a == nil || old(allocated(a))) ==> a.ThenExpressions == old(a.ThenExpressions)
+//@   invariant@1 shape: clone != nil && !old(allocated(clone)) && allocated(clone) && len(clone.ThenExpressions) == len(e.ThenExpressions) && e.ThenExpressions == old(e.ThenExpressions) && clone.GrlText == e.GrlText
+//@   invariant@1 done: old(thensAlloc(e)) ==> forall k int :: 0 <= k && k < $i ==> has(cloneTable.Records, e.ThenExpressions[k].AstID) && clone.ThenExpressions[k] == imageOf(cloneTable, e.ThenExpressions[k].AstID)
+//@   invariant@1 table: TableInv(cloneTable) && recordsKept(cloneTable) && (forall p Ref :: old(allocated(p)) ==> allocated(p))
+//@   ensures[C09] fresh: fresh(c) && !$blue[c]
+//@   ensures[C09] faithful: c.GrlText == e.GrlText && len(c.ThenExpressions) == len(e.ThenExpressions)
+//@   ensures[C09,C01,C02] children: old(thensAlloc(e)) ==> forall k int :: 0 <= k && k < len(e.ThenExpressions) ==> has(cloneTable.Records, e.ThenExpressions[k].AstID) && c.ThenExpressions[k] == imageOf(cloneTable, e.ThenExpressions[k].AstID)
+//@   ensures[C09] tableinv: TableInv(cloneTable)
+//@   ensures[C09,C01,C02] recordskept: recordsKept(cloneTable)
+//@   ensures allocmono: forall p Ref :: old(allocated(p)) ==> allocated(p)
 
 //@ func (e *RuleEntry) Clone(cloneTable) (c)
 //@   serves C09 C16
+//@   opt freshslices=1
 //@   opt alloc=1
 //@   requires e != nil
 //@   requires TableInv(cloneTable)
@@ -1279,6 +1307,7 @@ package ast
 
 //@ func (e *WhenScope) Clone(cloneTable) (c)
 //@   serves C09 C01 C02
+//@   opt freshslices=1
 //@   opt alloc=1
 //@   requires e != nil
 //@   requires TableInv(cloneTable)
@@ -1292,6 +1321,7 @@ package ast
 
 //@ func (e *ThenScope) Clone(cloneTable) (c)
 //@   serves C09 C01 C02
+//@   opt freshslices=1
 //@   opt alloc=1
 //@   requires e != nil
 //@   requires TableInv(cloneTable)
@@ -1305,6 +1335,7 @@ package ast
 
 //@ func (e *ThenExpression) Clone(cloneTable) (c)
 //@   serves C09 C01 C02
+//@   opt freshslices=1
 //@   opt alloc=1
 //@   requires e != nil
 //@   requires TableInv(cloneTable)
@@ -1318,6 +1349,7 @@ package ast
 
 //@ func (e *Assignment) Clone(cloneTable) (c)
 //@   serves C09 C01 C02
+//@   opt freshslices=1
 //@   opt alloc=1
 //@   requires e != nil
 //@   requires TableInv(cloneTable)
@@ -1331,6 +1363,7 @@ package ast
 
 //@ func (e *Expression) Clone(cloneTable) (c)
 //@   serves C09 C01 C02
+//@   opt freshslices=1
 //@   opt alloc=1
 //@   requires e != nil
 //@   requires TableInv(cloneTable)
@@ -1344,6 +1377,7 @@ package ast
 
 //@ func (e *ExpressionAtom) Clone(cloneTable) (c)
 //@   serves C09 C01 C02
+//@   opt freshslices=1
 //@   opt alloc=1
 //@   requires e != nil
 //@   requires TableInv(cloneTable)
@@ -1357,6 +1391,7 @@ package ast
 
 //@ func (e *Variable) Clone(cloneTable) (c)
 //@   serves C09 C01 C02
+//@   opt freshslices=1
 //@   opt alloc=1
 //@   requires e != nil
 //@   requires TableInv(cloneTable)
@@ -1370,6 +1405,7 @@ package ast
 
 //@ func (e *ArrayMapSelector) Clone(cloneTable) (c)
 //@   serves C09 C01 C02
+//@   opt freshslices=1
 //@   opt alloc=1
 //@   requires e != nil
 //@   requires TableInv(cloneTable)
@@ -1383,6 +1419,7 @@ package ast
 
 //@ func (e *FunctionCall) Clone(cloneTable) (c)
 //@   serves C09 C01 C02
+//@   opt freshslices=1
 //@   opt alloc=1
 //@   requires e != nil
 //@   requires TableInv(cloneTable)
@@ -1396,6 +1433,7 @@ package ast
 
 //@ func (e *Constant) Clone(cloneTable) (c)
 //@   serves C09 C01 C02
+//@   opt freshslices=1
 //@   opt alloc=1
 //@   requires e != nil
 //@   requires TableInv(cloneTable)
